@@ -75,6 +75,39 @@ Section RefsKept.
         forall t r s0, snaps cfg0 nclients slot pre t r s0 -> ~ refd slot s0 d.
 End RefsKept.
 
+(* ---------- an executable check of [refs_kept] (sound: Repl/ValRefCheck_proofs.v) ---------- *)
+
+Definition val_refs (v : val) : list N := match v with VRef t => [t] | VNat _ => [] end.
+Definition comp_refs (cs : list (N * comp)) : list N := flat_map (fun kc => val_refs (c_val (snd kc))) cs.
+
+(* the entities referenced by the entities visible to the slot *)
+Definition vis_refs (slot : N) (s : server) : list N :=
+  flat_map (fun ex => match vrepl slot s (fst ex) with Some x => comp_refs (se_comps x) | None => [] end) (sv_ents s).
+
+(* what a step adds to the references seen by the slot: those of the snapshot a server frame takes *)
+Definition step_seen (y' : sys) (o : out) (slot : N) : list N :=
+  match o with OSFrame fo _ => if fo_ran fo then vis_refs slot (y_server y') else [] | _ => [] end.
+
+(* run the script; [seen]: the entities referenced in the snapshots of the current session of the slot *)
+Fixpoint refs_keptb_from (y : sys) (script : list step) (slot : N) (seen : list N) : bool :=
+  match script with
+  | [] => true
+  | st :: rest =>
+    match sys_step y st with
+    | Ok (y', o) =>
+      forallb (fun d => negb (mem_N d seen)) (desp_step y st slot) &&
+      refs_keptb_from y' rest slot (if ends_session slot st then [] else seen ++ step_seen y' o slot)
+    | _ => true
+    end
+  end.
+Definition refs_keptb (cfg0 : cfg) (nclients : N) (script : list step) (slot : N) : bool :=
+  refs_keptb_from (sys_init cfg0 nclients) script slot [].
+
+(* the slots of `sys_init`; ... the check for every slot *)
+Definition client_slots (nclients : N) : list N := map N.of_nat (seq 0 (N.to_nat nclients)).
+Definition refs_keptb_all (cfg0 : cfg) (nclients : N) (script : list step) : bool :=
+  forallb (refs_keptb cfg0 nclients script) (client_slots nclients).
+
 (* ================================================================== *)
 (* 2. server history                                                  *)
 (* ================================================================== *)
